@@ -508,6 +508,10 @@ impl Vm {
     ///
     /// 3. A sweep, freeing any vcells not marked as used in step #1.
     pub fn run_gc(&mut self) {
+        #[cfg(feature = "verif")]
+        if crate::vm::verif::eager_gc() {
+            crate::vm::verif::set_force_gc(true);
+        }
         if (self.heap.used_size() as f64 / self.heap.capacity() as f64) < 0.75_f64 {
             return;
         }
